@@ -8,6 +8,8 @@ import (
 	"strconv"
 	"strings"
 	"sync"
+	"net"
+	"sync/atomic"
 	"time"
 
 	"github.com/smallnest/rpcx/client"
@@ -17,6 +19,8 @@ import (
 )
 
 func init() { props["C14"] = runC14 }
+
+var c14seq int64
 
 var c14Groups = []string{"blue", "green", "red"}
 
@@ -513,7 +517,147 @@ func c14Shared(o *common.Out, id string, n int, closeOrder []int) {
 	o.Count("shared-discovery")
 }
 
+// a user selector that takes what it is given: round-robin over the sorted keys of the last set, every set reported
+type c14Sel struct {
+	mu   sync.Mutex
+	keys []string
+	i    int
+	sets chan string
+}
+
+func (s *c14Sel) Select(ctx context.Context, p, m string, a interface{}) string {
+	s.mu.Lock()
+	defer s.mu.Unlock()
+	if len(s.keys) == 0 {
+		return ""
+	}
+	k := s.keys[s.i%len(s.keys)]
+	s.i++
+	return k
+}
+func (s *c14Sel) UpdateServer(servers map[string]string) {
+	var ks []string
+	for k := range servers {
+		ks = append(ks, k)
+	}
+	sort.Strings(ks)
+	s.mu.Lock()
+	s.keys, s.i = ks, 0
+	s.mu.Unlock()
+	select {
+	case s.sets <- strings.Join(ks, ","):
+	default:
+	}
+}
+func (s *c14Sel) current() string { s.mu.Lock(); defer s.mu.Unlock(); return strings.Join(s.keys, ",") }
+
+// a ClientConnected plugin of the XClient (it runs after the client has released its lock, before the call goes on): the
+// first connection publishes an update and waits until the selector has been given it
+type c14ConnHook struct {
+	once    sync.Once
+	publish func()
+	want    string
+	sets    chan string
+	stuck   bool
+}
+
+func (h *c14ConnHook) ClientConnected(conn net.Conn) (net.Conn, error) {
+	h.once.Do(func() {
+		h.publish()
+		deadline := time.After(4 * time.Second)
+		for {
+			select {
+			case s := <-h.sets:
+				if s == h.want {
+					return
+				}
+			case <-deadline:
+				h.stuck = true
+				return
+			}
+		}
+	})
+	return conn, nil
+}
+
+// c14DuringRetry: a discovery update arrives and is applied just when a call that failed on one server has connected to the next one
+// (fail-over; or, without any failure, to its only one): the call may finish where it is, but afterwards the client selects from the last published
+// set and from nothing else.  Oracle only.  case: retry|<fail mode>
+func c14DuringRetry(o *common.Out, id string, mode string) {
+	abstract := "retry|" + mode
+	o.Begin(id, abstract)
+	o.Count("update-during-a-retry")
+	uid := atomic.AddInt64(&c14seq, 1)
+	a, b, c := fmt.Sprintf("c14f-%d-a", uid), fmt.Sprintf("c14f-%d-b", uid), fmt.Sprintf("c14f-%d-c", uid)
+	fb := &fakeServer{id: 1, fixed: "ok22"}
+	registerFake(a, &fakeServer{id: 0, dials: []bool{false, false, false, false, false, false, false, false}})
+	registerFake(b, fb)
+	registerFake(c, &fakeServer{id: 2, fixed: "ok33"})
+	defer func() { unregisterFake(a); unregisterFake(b); unregisterFake(c) }()
+	first := []*client.KVPair{{Key: "vsrv@" + a}, {Key: "vsrv@" + b}}
+	fm := client.Failover
+	if mode == "failfast" {
+		// no failure at all: the only server's dial is the one that is held
+		first, fm = first[1:], client.Failfast
+	}
+	d, _ := client.NewMultipleServersDiscovery(first)
+	opt := client.DefaultOption
+	opt.SerializeType = protocol.JSON
+	opt.Heartbeat = false
+	opt.Retries = 3
+	xc := client.NewXClient("Svc", fm, client.SelectByUser, d, opt)
+	defer xc.Close()
+	sel := &c14Sel{sets: make(chan string, 64)}
+	xc.SetSelector(sel)
+	for len(sel.sets) > 0 {
+		<-sel.sets
+	}
+	want := "vsrv@" + c
+	hook := &c14ConnHook{publish: func() { d.Update([]*client.KVPair{{Key: want}}) }, want: want, sets: sel.sets}
+	pc := client.NewPluginContainer()
+	pc.Add(hook)
+	xc.SetPlugins(pc)
+	{
+		reply := -1
+		ctx, cancel := context.WithTimeout(context.Background(), 10*time.Second)
+		err := xc.Call(ctx, "M", 1, &reply)
+		cancel()
+		if err != nil || reply != 22 {
+			o.Fail(id, "rig", fmt.Sprintf("the call that was under way when the update arrived: reply %d, %v", reply, err), abstract)
+			return
+		}
+	}
+	if hook.stuck {
+		o.Fail(id, "rig", "the update never reached the selector", abstract)
+		return
+	}
+	if cur := sel.current(); cur != want {
+		o.Fail(id, "stale-set", fmt.Sprintf("an update arrived while a %s call was connecting to its next server; afterwards the selector holds {%s}, the last published set is {%s}", mode, cur, want), abstract)
+	}
+	for i := 0; i < 4; i++ {
+		reply := -1
+		ctx, cancel := context.WithTimeout(context.Background(), 5*time.Second)
+		err := xc.Call(ctx, "M", 1, &reply)
+		cancel()
+		if err != nil || reply != 33 {
+			o.Fail(id, "stale-set", fmt.Sprintf("call %d after the update was answered with %d (%v): the only server of the last published set answers 33", i, reply, err), abstract)
+			break
+		}
+	}
+	o.ImplOnly(id, abstract, true)
+}
+
 func runC14(r *common.Rand, tier string, o *common.Out, replay string) {
+	if strings.HasPrefix(replay, "retry|") {
+		c14DuringRetry(o, "replay", strings.TrimPrefix(replay, "retry|"))
+		return
+	}
+	if replay == "" {
+		for i := 0; i < 3; i++ {
+			c14DuringRetry(o, fmt.Sprintf("rt%d", i), "failover")
+		}
+		c14DuringRetry(o, "rt3", "failfast")
+	}
 	if strings.HasPrefix(replay, "shared|") {
 		p := strings.Split(replay, "|")
 		n, _ := strconv.Atoi(p[1])
